@@ -23,7 +23,51 @@ func il(v int64) ast.Node                        { return ast.IntLit{V: v} }
 // the call expression rendering its result.
 func pureFunction(r *core.Rng) (defs []ast.Node, callExpr ast.Node, kind string) {
 	deep := ast.Assign{Name: "pdeep", Value: ast.FuncLit{Params: []string{"n"}, Body: ast.If{Cond: ast.Binary{Op: "<=", L: nm("n"), R: il(0)}, Then: il(0), Else: ast.Binary{Op: "+", L: il(1), R: icall("pdeep", ast.Binary{Op: "-", L: nm("n"), R: il(1)})}}}}
-	switch r.Intn(8) {
+	switch r.Intn(10) {
+	case 8: // function literals written in a for iterator expression escape the loop; another function's loop recycles the context
+		kind = "iterator-expression-closure"
+		spin := ast.Assign{Name: "pspin", Value: ast.FuncLit{Params: []string{"q"}, Body: ast.Block{Stmts: []ast.Node{
+			ast.Assign{Name: "t", Value: ast.Binary{Op: "*", L: nm("q"), R: il(1000)}},
+			ast.Assign{Name: "u", Value: ast.Binary{Op: "+", L: nm("t"), R: il(1)}},
+			ast.For{Vars: []string{"i", "j"}, Iters: []ast.Node{icall("fromto", il(0), il(int64(r.Range(1, 3)))), icall("fromto", il(0), il(5))}, Body: ast.Assign{Name: "t", Value: ast.Binary{Op: "+", L: nm("t"), R: nm("i")}}},
+			nm("t")}}}}
+		var it ast.Node = icall("elems", ast.ArrayLit{Elems: []ast.Node{ast.FuncLit{Body: nm("v")}, ast.FuncLit{Body: ast.ArrayLit{Elems: []ast.Node{nm("v"), nm("k")}}}}})
+		if r.Bool() {
+			it = icall("ppass", ast.FuncLit{Params: []string{"x"}, Body: ast.Binary{Op: "+", L: nm("x"), R: nm("k")}})
+		}
+		callH := icall("h")
+		if _, ok := it.(ast.Call); ok && it.(ast.Call).Fn == "ppass" {
+			callH = icall("h", il(1))
+		}
+		body := ast.Block{Stmts: []ast.Node{
+			ast.Assign{Name: "v", Value: ast.Binary{Op: "+", L: nm("n"), R: il(10)}},
+			ast.Assign{Name: "k", Value: ast.Binary{Op: "*", L: nm("n"), R: il(3)}},
+			ast.Assign{Name: "h", Value: ast.FuncLit{Params: nil, Body: il(0)}},
+			ast.For{Vars: []string{"g"}, Iters: []ast.Node{it}, Body: ast.Assign{Name: "h", Value: nm("g")}},
+			ast.Assign{Name: "a", Value: callH},
+			ast.Assign{Name: "s", Value: icall("pspin", il(int64(r.Range(2, 9))))},
+			ast.Assign{Name: "b", Value: callH},
+			ast.ArrayLit{Elems: []ast.Node{nm("a"), nm("s"), nm("b")}},
+		}}
+		defs = []ast.Node{spin, ast.Assign{Name: "ppass", Value: ast.FuncLit{Params: []string{"f"}, Body: ast.Yield{X: nm("f")}}},
+			ast.Assign{Name: "pf", Value: ast.FuncLit{Params: []string{"n"}, Body: body}}}
+		return defs, toa(icall("pf", il(int64(r.Range(1, 9))))), kind
+	case 9: // a closure routed through other functions while its defining call is live, then called after the captured variable changed
+		kind = "routed-closure"
+		body := ast.Block{Stmts: []ast.Node{
+			ast.Assign{Name: "x", Value: nm("n")},
+			ast.Assign{Name: "g", Value: ast.FuncLit{Body: ast.Binary{Op: "+", L: nm("x"), R: il(1)}}},
+			ast.Assign{Name: "h", Value: icall("pid", nm("g"))},
+			ast.Assign{Name: "w", Value: icall("pfirst", nm("g"))},
+			ast.Assign{Name: "y", Value: icall("pdeep", il(int64([]int{3, 60, 200}[r.Intn(3)])))},
+			ast.Assign{Name: "x", Value: ast.Binary{Op: "+", L: nm("x"), R: nm("y")}},
+			ast.ArrayLit{Elems: []ast.Node{icall("g"), icall("h"), icall("w"), nm("x")}},
+		}}
+		defs = []ast.Node{deep, ast.Assign{Name: "pid", Value: ast.FuncLit{Params: []string{"f"}, Body: nm("f")}},
+			ast.Assign{Name: "pone", Value: ast.FuncLit{Params: []string{"e"}, Body: ast.Block{Stmts: []ast.Node{ast.Yield{X: nm("e")}, ast.Yield{X: il(0)}}}}},
+			ast.Assign{Name: "pfirst", Value: ast.FuncLit{Params: []string{"f"}, Body: ast.For{Vars: []string{"e"}, Iters: []ast.Node{icall("pone", nm("f"))}, Body: ast.Return{X: nm("e")}}}},
+			ast.Assign{Name: "pf", Value: ast.FuncLit{Params: []string{"n"}, Body: body}}}
+		return defs, toa(icall("pf", il(int64(r.Intn(50))))), kind
 	case 0, 1: // random typed pure function
 		kind = "typed"
 		o := gen.DefaultOpts()
@@ -399,8 +443,9 @@ func init() {
 		Families: []core.Family{
 			{Name: "placements", Count: countFn(1500, 60000), Run: c03Case},
 			{Name: "uninit", Count: countFn(300, 12000), Run: c03Uninit},
+			{Name: "depths", Count: countFn(48, 1200), Run: func(ctx *core.Ctx, idx int) core.Result { return depthCase("C03", ctx, idx) }},
 		},
-		Floors: []core.Floor{{Key: "placements_compared", Quick: 12000, Thor: 500000}, {Key: "tag:placement:", Quick: 19, Thor: 19}, {Key: "tag:function:", Quick: 8, Thor: 8}, {Key: "stack_growths", Quick: 3000, Thor: 80000}, {Key: "context_clone_reuse", Quick: 500, Thor: 15000}},
+		Floors: []core.Floor{{Key: "placements_compared", Quick: 12000, Thor: 500000}, {Key: "tag:placement:", Quick: 19, Thor: 19}, {Key: "tag:function:", Quick: 10, Thor: 10}, {Key: "stack_growths", Quick: 3000, Thor: 80000}, {Key: "context_clone_reuse", Quick: 500, Thor: 15000}},
 	})
 	core.CaseSeconds["C03/placements"] = 1
 }
